@@ -82,22 +82,18 @@ def real_walk(schema, root, num, mode, arg=None):
             return a
         res = utils.query_traversal(root, cb)
     elif mode == 'find':
-        # the library function (count and identity of the parameters) ...
+        # the library function: number and (textual) order of the parameters ...
         ps = utils.get_query_params(root)
-        extra = 'n=%d' % len(ps)
-        found = [tagof(p) for p in ps]
+        extra = 'n=%d order=%s' % (len(ps), ','.join(str(tagof(p)) for p in ps))
 
-        # ... and the same callback with a log
+        # ... and the visitor it uses, with a log
         def cb(node, **kw):
             a = node if isinstance(node, Parameter) else None
             rec(node, a, kw)
             return a
         res = utils.query_traversal(root, cb)
-        if [v.split(':')[0] for v in visits if not v.endswith(':-')] != [str(t) for t in found]:
-            extra += ' MISMATCH(get_query_params order %s)' % found
     elif mode == 'fill':
         vals = [VAL0 + i for i in range(arg)]
-        state = list(vals)
         # the library function on one copy ...
         r2 = copy.deepcopy(root)
         n2 = walkspec.Numbering(r2)
@@ -106,22 +102,27 @@ def real_walk(schema, root, num, mode, arg=None):
             utils.fill_query_params(r2, list(vals))
         except IndexError:
             err = True
-        # ... and the same callback with a log on the tree that is reported
-        failed = [False]
+        # ... and the same steps with a log on the tree that is reported: values are assigned to the placeholders in
+        # textual order (get_query_params), then every placeholder is replaced by its value (looked up by identity)
+        found = utils.get_query_params(root)
+        res = None
+        if len(vals) < len(found):
+            extra = 'left=0 indexError=1'
+            failed = True
+        else:
+            failed = False
+            values = {id(p): v for p, v in zip(found, vals)}
 
-        def cb(node, **kw):
-            a = None
-            if isinstance(node, Parameter):
-                if state:
-                    a = Constant(state.pop(0), alias=node.alias, parentheses=node.parentheses)
-                else:
-                    failed[0] = True
-                    a = node
-            rec(node, a, kw)
-            return a
-        res = utils.query_traversal(root, cb)
-        extra = 'left=%d indexError=%d' % (len(state), failed[0])
-        if failed[0] != err:
+            def cb(node, **kw):
+                a = None
+                if isinstance(node, Parameter):
+                    v = values[id(node)]
+                    a = Constant(v, alias=node.alias, parentheses=node.parentheses)
+                rec(node, a, kw)
+                return a
+            res = utils.query_traversal(root, cb)
+            extra = 'left=%d indexError=0' % (len(vals) - len(found))
+        if failed != err:
             extra += ' MISMATCH(IndexError)'
         if not err and rose_after(r2, schema, tagger(n2)) != rose_after(root, schema, tagof):
             extra += ' MISMATCH(fill_query_params tree)'
@@ -286,6 +287,12 @@ def oracle(schema, root, rng, n_rep=3):
         if got != want:
             fails.append(dict(cls=type(n1.nodes[pk]).__name__, slot=attr, dev='replace',
                               detail='a node returned for node %d does not take exactly its place' % x))
+        else:
+            for k2, nd in enumerate(n1.nodes):
+                for al, attr2 in walkspec.stale_aliases(nd):
+                    fails.append(dict(cls=type(nd).__name__, slot=attr2, dev='alias',
+                                      detail='after a node was returned for node %d, %s.%s still refers to the old child of %s'
+                                             % (x, type(nd).__name__, al, attr2)))
     for f in fails:
         if 'node' in f and 'has_param' not in f:
             f['has_param'] = _has_param(num, f['node'])
